@@ -125,6 +125,15 @@ Theorem C19_minprio_fuel_no_panic : forall sort_by, sort_spec sort_by -> forall 
 Proof. exact minprio_no_panic. Qed.
 Print Assumptions C19_minprio_fuel_no_panic.
 
+(* the model's top-up loop carries an iteration bound k (structural recursion); the bound the
+   selector passes (cutoffIndex, with numLow starting at 1) is never what ends the loop: any
+   larger bound gives the same result, so the loop runs exactly while Go's condition holds *)
+Theorem C19_topup_bound_exact : forall w rec maxin mc minavg target cutoff low hi k k' numlow,
+  cutoff < numlow + Z.of_nat k -> (k <= k')%nat ->
+  topup w rec maxin mc minavg target cutoff low hi k numlow = topup w rec maxin mc minavg target cutoff low hi k' numlow.
+Proof. exact topup_bound_exact. Qed.
+Print Assumptions C19_topup_bound_exact.
+
 (* The algorithm as it was before the three repairs (min_priority_old, kept verbatim in the model)
    violates each clause: concrete witnesses of DESIGN section 7, rows 15a, 15b, 15c. *)
 Theorem C19_minprio_maxinputs_old_refuted :
